@@ -35,6 +35,7 @@ def cases(tier):
                 yield {"variant": {"links": links, "nrexcl": nre, "names": ["A", "D"], "blocks": "ABCD"}, "n": n, "tier": tier}
     yield from multi_cases(tier)
     yield from explicit_cases(tier)
+    yield {"kind": "reuse", "tier": tier}
 
 
 def effective(natoms, edges, nrexcl, explicit):
@@ -107,6 +108,11 @@ def run_case(case):
         return check_multi(case)
     if case.get("kind") in ("explicit", "explicit1"):
         return check_explicit(case)
+    if case.get("kind") in ("reuse", "reuse1"):
+        out = check_reuse(case)
+        if case["kind"] == "reuse1":
+            out["violations"] = [v for v in out["violations"] if all(v["case"][k] == case[k] for k in ("nre", "first", "second"))]
+        return out
     variant = case["variant"]
     spec = gp_cases.make_spec(variant)
     stats = {}
@@ -247,6 +253,43 @@ def check_multi(case):
         elif len(seq) > 1:
             keys.append(json.dumps([seq, nre], sort_keys=True))
     return dict(evals=evals, keys=keys, violations=viols, stats={"inputs_multi": evals}, sample=dict(nre=nre, sequences=len(case["seqs"])))
+
+
+# ------------------------------------------------------------------ several molecules from one force-field object
+def check_reuse(case):
+    """two molecules built one after the other from the SAME loaded force field (fresh processors each time, as a script using
+    the library does): the second molecule gets the exclusions its own blocks prescribe, whatever was built before"""
+    viols, evals, keys = [], 0, []
+    for nre in ({"A": 3, "D": 1}, {"A": 1, "D": 3}, {"A": 2, "D": 0}, {"A": 2, "D": 2}):
+        variant = {"links": ["bb"], "nrexcl": nre, "names": ["A", "D"], "blocks": "ABCD"}
+        spec = gp_cases.make_spec(variant)
+        seqs = [["A", "D"], ["D", "A", "A"], ["A", "A"], ["D", "D"], ["A", "D", "A"]]
+        for first, second in itertools.permutations(seqs, 2):
+            ff = H.parse_ff([("ff", F.render_ff(spec))])
+            for which, names in (("first", first), ("second", second)):
+                n = len(names)
+                rg = dict(n=n, edges=[[i, i + 1] for i in range(n - 1)], resids=[1 + i for i in range(n)], resnames=names)
+                evals += 1
+                case1 = dict(kind="reuse1", nre=nre, first=first, second=second)
+                try:
+                    exp = R.build(spec, rg)
+                    mm, _ = H.run_processors(ff, H.build_resgraph(rg))
+                except Exception as exc:  # noqa
+                    viols.append(crash_violation(exc, case1, assertion="pipeline-accepts-valid-input", tags=["force-field-reused"]))
+                    break
+                obs = H.mol_digest(mm.molecule)
+                kpos = {a["key"]: i for i, a in enumerate(obs["atoms"])}
+                explicit = [[kpos[a] for a in at] for at, _, _ in obs["inter"].get("exclusions", [])]
+                edges = {frozenset((kpos[a], kpos[b])) for a, b in obs["edges"]}
+                got = effective(len(obs["atoms"]), edges, obs["nrexcl"], explicit)
+                want = R.expected_exclusions(exp)
+                if got != want and len(viols) < 20:
+                    viols.append(dict(assertion="effective-exclusions-exact", tags=["force-field-reused", which],
+                                      message=f"{which} molecule {names} (built {'after ' + str(first) if which == 'second' else 'first'} from one force-field object, nrexcl {nre}): "
+                                              f"excluded but must not be {sorted(map(sorted, got - want))[:4]}; must be excluded but are not {sorted(map(sorted, want - got))[:4]}; molecule nrexcl={obs['nrexcl']}",
+                                      case=case1, detail={}))
+            keys.append(json.dumps([nre, first, second], sort_keys=True))
+    return dict(evals=evals, keys=keys, violations=viols, stats={"inputs_reuse": evals}, sample=dict(kind="reuse", runs=evals))
 
 
 # ------------------------------------------------------------------ inter-residue bonds made by explicit (by_atom_id) links
